@@ -43,8 +43,16 @@ def gen_and_run(tier, seed):
     if tier == "quick" and len(pers) > 20000:
         rng.shuffle(pers)
         pers = pers[:20000]
-    fobs = mc.run_impl(fc + pers, PROP)
-    cases = base + fc + pers
+    # node classes whose instances compare equal / are falsy (any node class is in the quantifier)
+    advs = []
+    for i, c in enumerate(base):
+        if i % 4 == 0:
+            advs.append(dict(c, adv=["always_equal", "falsy", "zero_len", "never_equal"][(i // 4) % 4]))
+    for i, c in enumerate(fc):
+        if i % 9 == 0:
+            advs.append(dict(c, adv=["always_equal", "falsy"][(i // 9) % 2]))
+    fobs = mc.run_impl(fc + pers + advs, PROP)
+    cases = base + fc + pers + advs
     obs = obs0 + fobs
     nexh = len(cases)
     if tier == "thorough":
